@@ -23,8 +23,8 @@ func init() {
 			"C14.swap: DefaultComparePreRelease evaluated over the length orderings with the scan left uninterpreted: out(a,b) = −out(b,a) holds syntactically for len(a) ≠ len(b); for equal lengths the residual obligation cPR(a,b) = −cPR(b,a) is listed as not decided. C14.suffix: the remainder comparison as a decision table: all-digit remainders are ordered by length after trimming zeros, then lexically; anything else lexically; the sign convention is that of the caller. " +
 			"C14.core: Ver.Compare over the 27 core orderings (as C06.core) gives reflexivity on the core and antisymmetry of the core part. C14.build: no read of Ver.Build on the comparison path. " +
 			"C14.latest: Ver.Latest returns one of its two operands unchanged and the argument only when Compare = −1. C14.entry: the six string helpers (as C06.entry), including: an error is returned only behind the failing edge of one of the two parse calls, so a helper fails exactly when a text is invalid for its parser, and every success return carries the result of the method applied to the two parsed values (no shortcut on the texts). " +
-			"C14.next: NextMajor/Minor/Patch results are (inc,0,0), (copy,inc,0), (copy,copy,inc) with empty PreRelease/Build, inc being word 0 of bits.Add64(field,1,0), and the only panic is on the carry ≠ 0 edge. C14.parse: the helpers' parser as a decision table with its capture → field mapping through strconv.ParseUint (as C03.gate / C06.parse): a text is refused exactly when it is outside the grammar or a component exceeds 64 bits. In C14.swap each distinct callee of DefaultComparePreRelease is a term of its own (two different scan functions on two branches do not cancel). C14.lang: the language of sem.pattern is the SemVer 2.0.0 grammar (C03.lang under this property): a helper errs exactly when a text is invalid.",
-		NotDecided:  []string{"reflexivity/antisymmetry inside the byte scan of comparePreRelease for equal lengths (value-level string scan): residual obligation cPR(a,b) = −cPR(b,a)"},
+			"C14.scan: the byte scan hands the remainder comparison the two operands cut at one common index up to their ends, and ends with 0 under equal lengths (C06.scan under this property: the structural part of antisymmetry for equal lengths). C14.next: NextMajor/Minor/Patch results are (inc,0,0), (copy,inc,0), (copy,copy,inc) with empty PreRelease/Build, inc being word 0 of bits.Add64(field,1,0), and the only panic is on the carry ≠ 0 edge. C14.parse: the helpers' parser as a decision table with its capture → field mapping through strconv.ParseUint (as C03.gate / C06.parse): a text is refused exactly when it is outside the grammar or a component exceeds 64 bits. In C14.swap each distinct callee of DefaultComparePreRelease is a term of its own (two different scan functions on two branches do not cancel). C14.lang: the language of sem.pattern is the SemVer 2.0.0 grammar (C03.lang under this property): a helper errs exactly when a text is invalid.",
+		NotDecided:  []string{"antisymmetry of the remainder comparison on the values (C14.suffix gives its decision table, C14.scan that both calls compare the same two remainders at one common index; that strings.Compare / the digit-run order of two texts is antisymmetric is taken from the table, not re-proved per value)"},
 		Assumptions: []string{"strings.Compare ∈ {−1,0,1} and is antisymmetric", "bits.Add64 returns sum and carry"},
 		Technique:   "predicate abstraction with uninterpreted callees + constant-set propagation over go/ssa",
 	})
@@ -45,6 +45,10 @@ func runC14(e *Env) {
 	e.S.Floor("C14.swap", 3)
 	e.S.Floor("C14.latest", 3)
 	e.S.Floor("C14.next", 6)
+	// antisymmetry for equal lengths, the residual of C14.swap: the scan hands the remainder comparison both operands cut
+	// at one common index (cut at two different ones, cmp(a,b) and cmp(b,a) compare different pairs of texts)
+	ruleC06Scan(e, "C14.scan")
+	e.S.Floor("C14.scan", 3)
 	// "an error exactly when either text is invalid for that helper": what the helpers' parser accepts and which field
 	// each capture reaches (decision table of sem.unmarshalText, as C03.gate / C06.parse)
 	ruleSemGate(e, "C14.parse", "C14.parse")
